@@ -290,6 +290,39 @@ pub fn c20_case(inp: &ExecInput, lazy: bool, fault: &str, depth: usize) -> Optio
     Some(Case { verdict, detail: format!("c20_detail ({}) ({})", tree_term(&info), r), key: fnv(&format!("{}|{}|{}", inp.dsl, inp.src, lazy)),
         nontrivial: depth >= 1 || ctxs.len() >= 2, tags, replay })
 }
+/// One generated failing-run candidate of the C20 family: (input, lazy, fault description, depth of the injected fault).
+pub fn c20_gen_input(rng: &mut Rng, opts: &GenOpts) -> (ExecInput, bool, String, usize) {
+    let mut p = gen_program(rng, opts);
+    let (mut fault, depth) = if rng.chance(70) { let (f, _, d) = inject_runtime_fault(rng, &mut p); (f, d) } else { (String::new(), 0) };
+    if fault.is_empty() && rng.chance(70) {
+        // conflicts between statements of DIFFERENT stanzas/matches (two-sided contexts in lazy mode)
+        let x = *rng.pick(&[
+            "(identifier) @id {\n  let @id.zzv = 1\n}\n\n(function_definition name: (identifier) @name body: (block) @_body) {\n  let @name.zzv = 2\n}\n",
+            "(identifier) @id {\n  node @id.zzn\n  attr (@id.zzn) k = 1\n}\n\n(call function: (identifier) @fn) {\n  attr (@fn.zzn) k = 2\n}\n",
+            "(module) @m {\n  node @m.zzn\n}\n\n(identifier) @id {\n  node y\n  edge @id.zzn -> y\n}\n",
+            "(assignment left: (identifier) @l) @a {\n  let @l.zzv = @a\n}\n\n(identifier) @id {\n  let @id.zzv = 3\n}\n",
+            "(module) @_mz {\n  node za\n  node zb\n  node zc\n  edge za -> zb\n  edge za -> zc\n  attr (za -> zb) w = 1\n  attr (za -> zc) w = 2\n  attr (za -> zb) w = 3\n}\n",
+            "(module) @_mz {\n  node za\n  node zb\n  node zc\n  edge za -> zc\n  edge za -> zb\n  attr (za -> zc) w = 1\n  attr (za -> zb) w = 1\n  attr (za -> zb) v = 1\n  attr (za -> zc) w = 4\n}\n",
+        ]);
+        let pos = rng.below(p.stanzas.len() + 1);
+        p.stanzas.insert(pos, x.to_string());
+        fault = "cross-stanza conflict".to_string();
+    }
+    if fault.is_empty() {
+        // a stanza that matches nodes of DIFFERENT kinds, several of them starting at the same position (module / first
+        // statement / its expression ...), and fails only for some kinds: the error belongs to a LATER match of the stanza
+        let kinds = *rng.pick(&["expression_statement", "identifier|integer", "call|attribute|assignment", "block|pass_statement|return_statement"]);
+        let q = *rng.pick(&["_ @zany", "(_) @zany", "[(module) (expression_statement) (identifier) (call) (assignment) (function_definition) (block) (pass_statement) (return_statement)] @zany"]);
+        let x = format!("{} {{\n  scan (node-type @zany) {{\n    \"^({})$\" {{\n      let zz9 = (plus \"a\" 1)\n    }}\n  }}\n}}\n", q, kinds);
+        let pos = rng.below(p.stanzas.len() + 1);
+        p.stanzas.insert(pos, x);
+        fault = "kind-dependent fault in a multi-kind stanza".to_string();
+    }
+    let src = gen_source(rng);
+    let inp = ExecInput { dsl: p.text(), src, supplied: p.supplied.clone() };
+    let lazy = rng.chance(50);
+    (inp, lazy, fault, depth)
+}
 pub fn c20_gen(rng: &mut Rng, n: usize) -> Vec<Case> {
     quiet_panics();
     let opts = GenOpts::full();
@@ -297,35 +330,7 @@ pub fn c20_gen(rng: &mut Rng, n: usize) -> Vec<Case> {
     let mut tries = 0;
     while out.len() < n && tries < n * 40 {
         tries += 1;
-        let mut p = gen_program(rng, &opts);
-        let (mut fault, depth) = if rng.chance(70) { let (f, _, d) = inject_runtime_fault(rng, &mut p); (f, d) } else { (String::new(), 0) };
-        if fault.is_empty() && rng.chance(70) {
-            // conflicts between statements of DIFFERENT stanzas/matches (two-sided contexts in lazy mode)
-            let x = *rng.pick(&[
-                "(identifier) @id {\n  let @id.zzv = 1\n}\n\n(function_definition name: (identifier) @name body: (block) @_body) {\n  let @name.zzv = 2\n}\n",
-                "(identifier) @id {\n  node @id.zzn\n  attr (@id.zzn) k = 1\n}\n\n(call function: (identifier) @fn) {\n  attr (@fn.zzn) k = 2\n}\n",
-                "(module) @m {\n  node @m.zzn\n}\n\n(identifier) @id {\n  node y\n  edge @id.zzn -> y\n}\n",
-                "(assignment left: (identifier) @l) @a {\n  let @l.zzv = @a\n}\n\n(identifier) @id {\n  let @id.zzv = 3\n}\n",
-                "(module) @_mz {\n  node za\n  node zb\n  node zc\n  edge za -> zb\n  edge za -> zc\n  attr (za -> zb) w = 1\n  attr (za -> zc) w = 2\n  attr (za -> zb) w = 3\n}\n",
-                "(module) @_mz {\n  node za\n  node zb\n  node zc\n  edge za -> zc\n  edge za -> zb\n  attr (za -> zc) w = 1\n  attr (za -> zb) w = 1\n  attr (za -> zb) v = 1\n  attr (za -> zc) w = 4\n}\n",
-            ]);
-            let pos = rng.below(p.stanzas.len() + 1);
-            p.stanzas.insert(pos, x.to_string());
-            fault = "cross-stanza conflict".to_string();
-        }
-        if fault.is_empty() {
-            // a stanza that matches nodes of DIFFERENT kinds, several of them starting at the same position (module / first
-            // statement / its expression ...), and fails only for some kinds: the error belongs to a LATER match of the stanza
-            let kinds = *rng.pick(&["expression_statement", "identifier|integer", "call|attribute|assignment", "block|pass_statement|return_statement"]);
-            let q = *rng.pick(&["_ @zany", "(_) @zany", "[(module) (expression_statement) (identifier) (call) (assignment) (function_definition) (block) (pass_statement) (return_statement)] @zany"]);
-            let x = format!("{} {{\n  scan (node-type @zany) {{\n    \"^({})$\" {{\n      let zz9 = (plus \"a\" 1)\n    }}\n  }}\n}}\n", q, kinds);
-            let pos = rng.below(p.stanzas.len() + 1);
-            p.stanzas.insert(pos, x);
-            fault = "kind-dependent fault in a multi-kind stanza".to_string();
-        }
-        let src = gen_source(rng);
-        let inp = ExecInput { dsl: p.text(), src, supplied: p.supplied.clone() };
-        let lazy = rng.chance(50);
+        let (inp, lazy, fault, depth) = c20_gen_input(rng, &opts);
         if let Some(c) = c20_case(&inp, lazy, &fault, depth) { out.push(c); }
     }
     out
